@@ -163,6 +163,10 @@ def driver_records(tier):
                     raw["rhs_mode"] = "one"
                     rid += 1
                     recs.append({"id": rid, "kind": "call", "call": D.project([raw], rid)[0], "cls": cn, "dtlocal": dtlocal})
+    for (cn, dtlocal, islin, op, cfl, nmax, raw) in D.changing_cfl_calls():
+        rid += 1
+        recs.append({"id": rid, "kind": "call", "call": D.project([raw], rid)[0], "cls": cn, "dtlocal": dtlocal,
+                     "op": op, "cfl": cfl, "islinear": islin})
     return recs
 
 
